@@ -18,16 +18,16 @@ CHECKS = {
          "Interleavings are sequentially consistent, so non-SC behaviour of race-free but weakened code is out of reach (DESIGN.md section 7); long real-thread runs under the real ThreadSanitizer are observation of uncontrolled executions and are deliberately not part of this technique."),
  "C04": ("deterministic simulation: librfn compiled with TSan instrumentation against an own runtime; sender/receiver contexts preempted at every atomic operation and payload access under seeded random/PCT/k-preemption/stall schedules and nested interrupts; ownership automaton, claim-order and interval oracles",
          "Seeded search over interleavings at atomic-operation granularity of 1-4 senders (claim, write, send) and one receiver (receive, check, release) for queue depths 1-32 with the queue full most of the time, both as free-running threads under four scheduling strategies and as run-to-completion interrupt handlers nested to depth 2; an ownership automaton per buffer, exactly-once/intact/claim-order checks, an interval oracle for refusals (counting claims in progress) and conservation at quiescence decide every run.",
-         "Interleavings are sequentially consistent (C07 covers the memory-order argument); preemption granularity is atomic operations, accesses to shared regions and explicit points between API calls; sampling, not enumeration."),
+         "Interleavings are sequentially consistent (C07 covers the memory-order argument); preemption granularity is atomic operations, accesses to shared regions (including the bytes of the library's own memset/memcpy, wrapped at link time) and explicit points between API calls; long-lived queues (hundreds of messages) one run in 40; extra parts build the library with -DNDEBUG and with the fallback atomics of atomic.h; sampling, not enumeration."),
  "C05": ("deterministic simulation: TSan-instrumented ringbuf.c against an own runtime; producer and consumer preempted at every atomic operation and ring-storage access under seeded thread schedules and interrupts in either direction; FIFO, interval and bounds oracles",
          "Seeded search over interleavings of one producer (ringbuf_put, spinning ringbuf_putchar) and one consumer (ringbuf_get, ringbuf_empty) for ring lengths 2-17, 64, 255, 256, 4096 with pre-rotated indices: free-running threads under four strategies and interrupt-style run-to-completion preemption in both directions; byte-exact FIFO equality, interval oracles for refused puts and empty reports, and a bounds monitor over every plain access the ring code makes decide every run.",
          "Sequentially consistent interleavings; ringbuf_putchar is only used where its documented deadlock cannot arise (threads with a consumer that keeps consuming)."),
  "C01": ("seeded scheduler histories (outside calls and scripted protothread fibres) in lock step with a reference scheduler; library restart by data-segment restore; tape shrinking and exact replay",
          "Seeded exploration of histories of fibre_run / fibre_run_atomic / fibre_kill / fibre_scheduler_next(t) issued from outside and from inside 1-6 real protothread fibres that return yielded/waiting/exited/failed, with kill, spurious-run, queue-full and clock-stall faults, followed by a fault-free flush to quiescence; which fibre each pass dispatches, start-versus-resume, fibre_self and every return value are compared with a reference scheduler written from the statement (no fast path).",
-         "Sequential mode: interrupt-context requests arrive between API calls only (their interleaving inside calls belongs to C06). The generator keeps to the property's scope (one unsatisfied timeout per dispatch, at most 8 undrained requests unless the queue-full fault is on, small time base)."),
+         "Part 1 (h_fibre) is sequential histories: interrupt-context requests arrive between API calls; up to 10 fibres; where the statement leaves two readings open (fibre_timeout by an already queued fibre; the answer to a 9th undrained request) the reference forks or follows the library. Part 2 (h_irq, sim flavour) places the requests inside the scheduler's calls (interrupts nested to depth 2, sender threads) and reports lost, extra and mis-ordered dispatches under this property."),
  "C02": ("seeded timer-heavy scheduler histories on a simulated 32-bit cyclic clock placed at the wrap points; reference timer model plus translation-invariance re-execution",
          "Same harness and reference scheduler as C01 with a timer-heavy swarm: due times at <=0, 1, ties and up to 2^30 ahead; the simulated clock stalls, single-steps, lands exactly on, one short of and far beyond due times, and its base is placed by the tape at 0, 2^31-k, 2^32-k or anywhere; every third history is executed a second time with the time base translated and the two dispatch logs must be identical, which checks wrap-safety without trusting the model.",
-         "Scope of the property is enforced by the generator: all pending due times within 2^31 ticks after the current time."),
+         "Scope of the property is enforced by the generator: all pending due times within 2^31 ticks after the current time. A second part (h_irq, sim flavour) lets timeouts fall due in passes that are interrupted between their two drains of the wake-up queue."),
  "C03": ("seeded scheduler histories checking every returned wake-up time against the reference scheduler state; discrete-event flush that sleeps exactly as told",
          "Every value returned by fibre_scheduler_next in the C01/C02-style histories (both swarms) is compared with the reference: t if anything is runnable on return (run queue, the fibre that just yielded, an accepted undrained atomic request), else the earliest pending due time, else t+FIBRE_UNBOUNDED_SLEEP; the closing flush sleeps exactly until the returned time and every owed dispatch must still happen.",
          "Part (c) runs the real POSIX main loop (posix/fibre_posix.c) on the simulated clock with time_now() and a link-time wrapped usleep() as seams and judges every decision to sleep against the pending timeouts and runnable fibres. Part (a) is sequential histories (h_fibre); part (b) (h_irq, sim flavour) places interrupts inside fibre_scheduler_next and, whenever the scheduler says sleep, re-runs a pass at the same instant with interrupts held off: a dispatch there is excused only by a request published after the scheduler's last look at the wake-up queue, and no known pending timeout may lie before the returned time."),
